@@ -400,7 +400,18 @@ fn c14(ctx: &Ctx) -> i32 {
         "exploration",
         "program = document of G_thrift with the HOSTILE naming profile (Rust strict/reserved/path keywords, names colliding after case conversion, names of items the emitted code mentions, leading underscores, all caps) covering structs/unions/exceptions/enums/typedefs/consts/services, and documents of G_proto (proto2/proto3, nested messages and enums, oneofs, maps, every scalar type, recursion), containers nested to depth 3, self recursion through optional fields / lists / map values, 1-3 file include graphs, namespaces, defaults, pilota annotations; configuration = {single file, split} x {keep_unknown_fields on/off} x {change_case on/off} x {ignore_unused on/off}. Observation: exit status + stderr of the builder child process, then rustc's diagnostics for the emitted files (cargo check of a crate that include!s every output as its own module, against the pilota runtime of the working tree). distinct = (document feature vector hash, configuration)",
     );
-    report.assume("G_proto documents use plain names (proto2 and proto3); the hostile naming profile applies to the Thrift documents");
+    report.assume("G_proto documents come with plain names and, every other pair, with hostile names that stay valid protobuf (unique per scope, field names unique as JSON names); messages with nested types keep an upper-case letter and message names of one scope stay distinct after case conversion (the two recorded findings of that family have directed documents)");
+    // the builder must write below its output directory only: listing of / (a package-less
+    // .proto in split mode once wrote /mod.rs) before and after all builder runs
+    let root_listing = || -> Vec<(String, u64, i64)> {
+        use std::os::unix::fs::MetadataExt;
+        let mut v: Vec<(String, u64, i64)> = std::fs::read_dir("/")
+            .map(|rd| rd.flatten().filter_map(|e| e.metadata().ok().filter(|m| m.is_file()).map(|m| (e.file_name().to_string_lossy().to_string(), m.len(), m.mtime() * 1_000_000_000 + m.mtime_nsec()))).collect())
+            .unwrap_or_default();
+        v.sort();
+        v
+    };
+    let root_before = root_listing();
     report.assume("uniqueness of names is kept in Thrift's own terms (exact spelling per scope); collisions after Rust case conversion are intended");
     let ndocs = ctx.scale(6, 120) as usize;
     let cfgs = Cfg::all();
@@ -485,6 +496,16 @@ fn c14(ctx: &Ctx) -> i32 {
             });
         }
     });
+    let root_after = root_listing();
+    report.frag.add("files_in_root_dir_watched", root_after.len() as u64);
+    if root_after != root_before {
+        let changed: Vec<String> = root_after.iter().filter(|x| !root_before.contains(x)).map(|x| format!("/{}", x.0)).collect();
+        report.frag.violation(
+            "c14|builder-wrote-outside-its-output-directory",
+            &format!("files in / created or rewritten while the builders ran: {:?}", changed),
+            json!({"changed": changed}),
+        );
+    }
     let mut results = results.into_inner().unwrap();
     results.sort_by_key(|r| (r.0, r.1));
     let mut mods: Vec<(usize, usize, PathBuf)> = vec![];
